@@ -165,6 +165,194 @@ let codec_op toks =
   | ["crc"; hex] -> Printf.printf "crc: %s\n" (string_of_n (crc_compute (bytes_of_hex hex)))
   | _ -> failwith ("bad codec op: " ^ String.concat " " toks)
 
+(* ---------- state dumps (same text as the cfg(uflow_verif) verif_dump() functions) ---------- *)
+let sn = string_of_n
+let z_to_string = function
+  | Z0 -> "0" | Zpos p -> string_of_n (Npos p) | Zneg p -> "-" ^ string_of_n (Npos p)
+let optn = function None -> "-" | Some v -> sn v
+let b01 b = if b then "1" else "0"
+let fbits (x : Float64.t) = Printf.sprintf "%016Lx" (Int64.bits_of_float (Float64.to_float x))
+let hex_of_n n =
+  if n = N0 then "0" else begin
+    let n16 = n_of_int 16 in
+    let rec go n acc = if n = N0 then acc else go (N.div n n16) ("0123456789abcdef".[int_of_n (N.modulo n n16)] :: acc) in
+    let l = go n [] in String.init (List.length l) (List.nth l)
+  end
+
+let src_dump (c : send_rate_comp) =
+  let mode = match c.sr_mode_ with
+    | AwaitSend -> "A" | SlowStart t -> "S" ^ optn t | ThroughputEqn r -> "T" ^ sn r in
+  let rs = String.concat "," (List.map (fun e -> sn e.re_value ^ "@" ^ sn e.re_time ^ (if e.re_initial then "i" else "")) c.sr_recv_set) in
+  Printf.sprintf "X=%s max=%s mode=%s plr=%s nfe=%s idle=%s rtts=%s rttms=%s rtoms=%s rs=[%s]"
+    (sn c.sr_rate) (sn c.sr_max_rate) mode (fbits c.sr_prev_loss) (optn c.sr_nofeedback_exp) (b01 c.sr_nofeedback_idle)
+    (match c.sr_rtt_s with Some x -> fbits x | None -> "-") (optn c.sr_rtt_ms) (optn c.sr_rto_ms) rs
+
+let hc_dump (h : hc) =
+  let s = h.h_snd and q = h.h_fq and r = h.h_rcv and fa = h.h_faq in
+  let ad = match q.fq_ack_data with Some d -> sn d.ad_last_send ^ ":" ^ sn d.ad_total ^ ":" ^ b01 d.ad_rate_limited | None -> "-" in
+  let li = String.concat "," (List.map (fun e -> sn e.li_end ^ "/" ^ sn e.li_len) q.fq_li) in
+  let rb = q.fq_rb in
+  Printf.sprintf "now=%s rtt=%s rto=%s credit=%s fid=%s sr=%s stb=%s pq=%d rq=%d | snd q=%d base=%s next=%s alloc=%s total=%s | fq wbase=%s next=%s lbase=%s llen=%d rl=%s lf=%s ad=%s rb=%s:%s:%s:%s li=[%s] | rcv base=%s end=%s alloc=%s crf=%s wrf=%s | faq base=%s len=%d | src %s"
+    (sn h.h_now) (sn h.h_rtt) (sn h.h_rto) (z_to_string h.h_credit) (sn h.h_flush_id) (b01 h.h_sync_reply) (sn h.h_sync_base)
+    (List.length h.h_pq) (List.length h.h_rq)
+    (List.length s.s_queue) (sn s.s_base) (sn s.s_next) (sn s.s_alloc) (sn s.s_total)
+    (sn q.fq_wbase) (sn q.fq_next) (sn q.fq_lbase) (List.length q.fq_frames) (b01 q.fq_rate_limited) (optn q.fq_last_feedback) ad
+    (sn rb.rb_base) (sn rb.rb_count) (sn rb.rb_f0) (sn rb.rb_f1) li
+    (sn r.r_base) (sn r.r_end) (sn r.r_alloc) (hex_of_n r.r_crf) (b01 r.r_wrf)
+    (sn fa.fa_base) (List.length fa.fa_entries)
+    (src_dump h.h_src)
+
+(* ---------- hc mode ---------- *)
+type endpoint = { mutable h : hc; mutable outbox : n list array; mutable nout : int; mutable cursor : int; mutable poisoned : bool }
+let eps : endpoint option array = Array.make 4 None
+let nonce_seed = ref N0
+
+let payload len seed =
+  let rec go i acc = if i < 0 then acc else
+    go (i - 1) (byte_tbl.((seed * 31 + i * 7 + (i lsr 8)) land 0xFF) :: acc) in
+  go (len - 1) []
+
+let mode_of = function "0" -> TimeSensitive | "1" -> Unreliable | "2" -> Persistent | _ -> Reliable
+
+let z_of_string s =
+  if String.length s > 0 && s.[0] = '-' then
+    (match n_of_string (String.sub s 1 (String.length s - 1)) with N0 -> Z0 | Npos p -> Zneg p)
+  else (match n_of_string s with N0 -> Z0 | Npos p -> Zpos p)
+
+let relay_plan n drop dup swap seed =
+  let x = ref (seed mod 2147483648) in
+  let lcg () = x := (!x * 1103515245 + 12345) mod 2147483648; !x in
+  let plan = ref [] in
+  let i = ref 0 in
+  while !i < n do
+    let r = lcg () mod 1000 in
+    if r < drop then incr i
+    else if r < drop + dup then (plan := !i :: !i :: !plan; incr i)
+    else if r < drop + dup + swap && !i + 1 < n then (plan := !i :: (!i + 1) :: !plan; i := !i + 2)
+    else (plan := !i :: !plan; incr i)
+  done;
+  List.rev !plan
+
+let hc_reset () =
+  Array.fill eps 0 4 None; nonce_seed := N0
+
+let kind_name k = match int_of_n k with 1 -> "data" | 2 -> "sync" | 3 -> "ack" | _ -> "ignored"
+
+let hc_op toks =
+  let n = n_of_string in
+  match toks with
+  | ["seed"; v] -> nonce_seed := n v
+  | "hcnew" :: e :: a :: b :: c :: d :: f :: g :: hh :: i :: j :: k :: l :: m :: _ ->
+      let cfg = { cfg_tx_frame_base = n a; cfg_rx_frame_base = n b; cfg_tx_frame_window = n c; cfg_rx_frame_window = n d;
+                  cfg_tx_packet_base = n f; cfg_rx_packet_base = n g; cfg_tx_packet_window = n hh; cfg_rx_packet_window = n i;
+                  cfg_tx_bandwidth_limit = n j; cfg_tx_alloc_limit = n k; cfg_rx_alloc_limit = n l;
+                  cfg_keepalive = (if m = "-" then None else Some (n m)) } in
+      eps.(int_of_string e) <- Some { h = hc_new cfg !nonce_seed; outbox = Array.make 64 []; nout = 0; cursor = 0; poisoned = false };
+      Printf.printf "new %s\n" e
+  | op :: rest ->
+      let e = int_of_string (if op = "deliver" then List.nth rest 2 else if op = "relay" then List.nth rest 1 else List.hd rest) in
+      (match eps.(e) with
+       | None -> print_string "skipped\n"
+       | Some ep when ep.poisoned -> print_string "skipped\n"
+       | Some ep ->
+           let finish = function
+             | Ok h' -> ep.h <- h';
+                 Printf.printf "st sbs=%s pend=%s | %s\n" (sn (hc_send_buffer_size h')) (b01 (hc_is_send_pending h')) (hc_dump h')
+             | Panic _ -> ep.poisoned <- true; print_string "PANIC\n"
+             | Hang _ -> ep.poisoned <- true; print_string "HANG\n" in
+           let handle f =
+             match hc_handle_frame ep.h f with
+             | Ok (h', k) -> (kind_name k, Ok h')
+             | Panic s -> ("", Panic s) | Hang s -> ("", Hang s) in
+           (match op, rest with
+            | "send", [_; chan; mode; len; seed] ->
+                finish (Ok (hc_send ep.h (payload (int_of_string len) (int_of_string seed)) (n chan) (mode_of mode)))
+            | "step", [_; now] -> finish (hc_step ep.h (n now))
+            | "flush", _ ->
+                (match hc_flush ep.h with
+                 | Ok (h', frames) ->
+                     List.iter (fun f ->
+                       Printf.printf "frame %d %s\n" (List.length f) (hex_of_bytes f);
+                       if ep.nout >= Array.length ep.outbox then begin
+                         let a = Array.make (2 * ep.nout) [] in Array.blit ep.outbox 0 a 0 ep.nout; ep.outbox <- a end;
+                       ep.outbox.(ep.nout) <- f; ep.nout <- ep.nout + 1) frames;
+                     finish (Ok h')
+                 | Panic s -> finish (Panic s) | Hang s -> finish (Hang s))
+            | "recv", _ ->
+                let (h', pkts) = hc_receive ep.h in
+                List.iter (fun p -> Printf.printf "pkt %d %s\n" (List.length p) (sn (crc_compute p))) pkts;
+                finish (Ok h')
+            | "deliver", [src; k; _] ->
+                (match eps.(int_of_string src) with
+                 | Some s when s.nout > 0 ->
+                     let bytes = s.outbox.(int_of_string k mod s.nout) in
+                     (match read_frame bytes with
+                      | Ok None -> print_string "deliver: unreadable\n"; finish (Ok ep.h)
+                      | Ok (Some f) -> let (k, r) = handle f in
+                          (match r with Ok _ -> Printf.printf "deliver: %s\n" k | _ -> ()); finish r
+                      | Panic s -> finish (Panic s) | Hang s -> finish (Hang s))
+                 | _ -> print_string "deliver: nothing\n"; finish (Ok ep.h))
+            | "relay", [src; _; drop; dup; swap; seed] ->
+                let frames = match eps.(int_of_string src) with
+                  | Some sp ->
+                      let fresh = Array.sub sp.outbox sp.cursor (sp.nout - sp.cursor) in
+                      sp.cursor <- sp.nout;
+                      List.map (fun i -> fresh.(i)) (relay_plan (Array.length fresh) (int_of_string drop) (int_of_string dup) (int_of_string swap) (int_of_string seed))
+                  | None -> [] in
+                let kinds = Buffer.create 16 in
+                let rec go hcur = function
+                  | [] -> Ok hcur
+                  | bytes :: rest ->
+                      (match read_frame bytes with
+                       | Ok None -> Buffer.add_char kinds 'u'; go hcur rest
+                       | Ok (Some f) ->
+                           (match hc_handle_frame hcur f with
+                            | Ok (h', k) -> Buffer.add_char kinds (kind_name k).[0]; go h' rest
+                            | Panic s -> Panic s | Hang s -> Hang s)
+                       | Panic s -> Panic s | Hang s -> Hang s) in
+                let r = go ep.h frames in
+                Printf.printf "relay: %d %s\n" (List.length frames) (Buffer.contents kinds);
+                finish r
+            | "raw", [_; hex] ->
+                (match read_frame (bytes_of_hex hex) with
+                 | Ok None -> print_string "raw: unreadable\n"; finish (Ok ep.h)
+                 | Ok (Some f) -> let (k, r) = handle f in
+                     (match r with Ok _ -> Printf.printf "raw: %s\n" k | _ -> ()); finish r
+                 | Panic s -> finish (Panic s) | Hang s -> finish (Hang s))
+            | "frame", _ :: spec ->
+                let (k, r) = handle (parse_frame spec) in
+                (match r with Ok _ -> Printf.printf "frame: %s\n" k | _ -> ()); finish r
+            | "credit", [_; z] -> finish (Ok (set_credit ep.h (z_of_string z)))
+            | "dump", _ -> finish (Ok ep.h)
+            | _ -> failwith ("bad hc op: " ^ String.concat " " toks)))
+  | [] -> ()
+
+(* ---------- rate mode ---------- *)
+let comp : send_rate_comp option ref = ref None
+let comp_poisoned = ref false
+let float_of_hexbits s = Float64.of_float (Int64.float_of_bits (Int64.of_string ("0x" ^ s)))
+
+let rate_op toks =
+  let n = n_of_string in
+  match toks with
+  | ["srnew"; m] -> let c = src_new (n m) in comp := Some c; comp_poisoned := false;
+      Printf.printf "sr %s\n" (src_dump c)
+  | ["tput"; r; p] -> Printf.printf "tput %s\n" (sn (eval_tcp_throughput (float_of_hexbits r) (float_of_hexbits p)))
+  | _ ->
+    (match !comp with
+     | Some c when not !comp_poisoned ->
+         let r = match toks with
+           | ["srsent"; now] -> Ok (src_notify_frame_sent c (n now), None)
+           | ["srstep"; now; "-"] -> src_step c (n now) None
+           | ["srstep"; now; rtt; rr; loss; rl] ->
+               src_step c (n now) (Some { fd_rtt_ms = n rtt; fd_recv_rate = n rr; fd_loss_rate = float_of_hexbits loss; fd_rate_limited = (rl = "1") })
+           | _ -> failwith "bad rate op" in
+         (match r with
+          | Ok (c', reset) -> comp := Some c';
+              Printf.printf "sr reset=%s %s\n" (match reset with Some p -> fbits p | None -> "-") (src_dump c')
+          | _ -> comp_poisoned := true; print_string "PANIC\n")
+     | _ -> print_string "skipped\n")
+
 let split_ws s = List.filter (fun t -> t <> "") (String.split_on_char ' ' s)
 
 let () =
@@ -176,10 +364,12 @@ let () =
       let toks = split_ws line in
       match toks with
       | [] -> ()
-      | "case" :: _ -> print_string line; print_char '\n'
+      | "case" :: _ -> print_string line; print_char '\n'; hc_reset (); comp := None
       | _ ->
         (match mode with
          | "codec" -> codec_op toks
+         | "hc" -> hc_op toks; flush stdout
+         | "rate" -> rate_op toks
          | _ -> failwith "unknown mode")
     done
   with End_of_file -> ());
